@@ -656,6 +656,33 @@ has_yang_meta(struct lyd_node *first)
     return 0;
 }
 
+/* every root of the forest is a top-level schema node (or opaque): a data tree, not an unlinked nested subtree */
+static int
+all_top(struct lyd_node *first)
+{
+    for (struct lyd_node *n = first; n; n = n->next) {
+        if (n->schema && lysc_data_parent(n->schema)) {
+            return 0;
+        }
+    }
+    return 1;
+}
+
+static int
+mixed_roots(struct lyd_node *first)
+{
+    int top = 0, nested = 0;
+
+    for (struct lyd_node *n = first; n; n = n->next) {
+        if (n->schema && lysc_data_parent(n->schema)) {
+            nested = 1;
+        } else {
+            top = 1;
+        }
+    }
+    return top && nested;
+}
+
 static int
 has_opaq(struct lyd_node *first)
 {
@@ -667,16 +694,17 @@ has_opaq(struct lyd_node *first)
     return 0;
 }
 
-/* two equal instances of a configuration list / leaf-list among siblings (data that cannot be valid) */
+/* two equal instances of a configuration list / leaf-list or two instances of any other node among siblings (data that
+ * cannot be valid) */
 static int
 has_dup_inst(struct lyd_node *first)
 {
     for (struct lyd_node *n = first; n; n = dfs_next(n)) {
-        if (!n->schema || !(n->schema->nodetype & (LYS_LIST | LYS_LEAFLIST)) || lysc_is_dup_inst_list(n->schema)) {
+        if (!n->schema || lysc_is_dup_inst_list(n->schema)) {
             continue;
         }
         for (struct lyd_node *m = n->next; m; m = m->next) {
-            if ((m->schema == n->schema) && !lyd_compare_single(n, m, 0)) {
+            if ((m->schema == n->schema) && (!(n->schema->nodetype & (LYS_LIST | LYS_LEAFLIST)) || !lyd_compare_single(n, m, 0))) {
                 return 1;
             }
         }
@@ -768,6 +796,9 @@ check_siblings(const struct lyd_node *first, const struct lyd_node *parent, int 
     for (n = first; n; n = n->next) {
         if (lyd_parent(n) != parent) {
             return "parent pointer";
+        }
+        if (parent && parent->schema && n->schema && !(n->flags & LYD_EXT) && (lysc_data_parent(n->schema) != parent->schema)) {
+            return "child of a node that is not its schema parent";
         }
         if (prev && (n->prev != prev)) {
             return "prev pointer";
@@ -1128,6 +1159,10 @@ run_cmd(char **w, int nw, struct cmdres *r)
         if (!p) {
             SKIP();
         }
+        if ((p[0] == '/') && !all_top(T[s])) {
+            /* a new top-level node would become a sibling of an unlinked nested node */
+            SKIP();
+        }
         opts = OPTS(w[5]) & (LYD_NEW_VAL_OUTPUT | LYD_NEW_VAL_STORE_ONLY | LYD_NEW_PATH_UPDATE | LYD_NEW_PATH_OPAQ |
                 LYD_NEW_PATH_WITH_OPAQ);
         r->inv |= 1u << s;
@@ -1345,6 +1380,14 @@ run_cmd(char **w, int nw, struct cmdres *r)
             /* the parameter is a struct lyd_node_inner * */
             SKIP();
         }
+        if (is_key(n)) {
+            /* "duplicating a single key, okay, I suppose...": asserts with LYD_DUP_WITH_PARENTS */
+            SKIP();
+        }
+        if (par && ctx_arg(w[6]) && (LYD_CTX(par) != ctx_arg(w[6]))) {
+            /* lyd_dup_*_to_ctx() does not check that the parent belongs to the target context */
+            SKIP();
+        }
         if (par && (par == lyd_parent(n))) {
             /* a second instance of every copied sibling below the same parent: data that cannot be valid (two
              * instances of a container / leaf), the children hash table of the parent asserts on them */
@@ -1407,6 +1450,10 @@ run_cmd(char **w, int nw, struct cmdres *r)
             /* lyd_merge_sibling_r() -> lyd_dup_inst_next() asserts on an opaque source node that is not in the target */
             SKIP();
         }
+        if (mixed_roots(T[t]) || mixed_roots(T[s])) {
+            /* forests that mix top-level and unlinked nested nodes (the library checks the first node only) */
+            SKIP();
+        }
         src = T[s];
         opts = (uint16_t)(OPTS(w[3]) & 0x7);
         r->inv |= 1u << t;
@@ -1464,6 +1511,12 @@ run_cmd(char **w, int nw, struct cmdres *r)
         NEED(6);
         if (!(par = node_at(w[1], &s)) || !par->schema || !(par->schema->nodetype & LYD_NODE_INNER)) {
             SKIP();
+        }
+        for (struct lyd_node *ch = lyd_child(par); ch; ch = ch->next) {
+            if (!ch->schema && (((struct lyd_node_opaq *)ch)->format != LY_VALUE_XML)) {
+                /* lydxml_get_hints_opaq() asserts on a JSON opaque sibling */
+                SKIP();
+            }
         }
         r->inv |= 1u << s;
         r->modfail |= 1u << s;
@@ -1566,6 +1619,9 @@ run_cmd(char **w, int nw, struct cmdres *r)
         if ((t == f) || !T[f] || (T[t] && (LYD_CTX(T[t]) != LYD_CTX(T[f])))) {
             SKIP();
         }
+        if (mixed_roots(T[t]) || mixed_roots(T[f])) {
+            SKIP();
+        }
         r->inv |= 1u << t;
         r->modfail |= 1u << t;
         r->ectx = LYD_CTX(T[f]);
@@ -1582,6 +1638,11 @@ run_cmd(char **w, int nw, struct cmdres *r)
 
         NEED(3);
         f = slot_of(w[1]);
+        if (T[f] && !(gen_diff & (1u << f))) {
+            /* only diffs produced by the library are reversed: lyd_diff_reverse_all() dereferences NULL on a node
+             * without the metadata / operation that lyd_diff_siblings() always writes */
+            SKIP();
+        }
         if ((d = take_dest(w[2], r, f, -1)) < 0) {
             SKIP();
         }
@@ -1628,6 +1689,10 @@ run_cmd(char **w, int nw, struct cmdres *r)
         NEED(6);
         s = slot_of(w[1]);
         wd = atoi(w[4]);
+        if (!all_top(T[s])) {
+            /* not a data tree: implicit top-level nodes would become siblings of an unlinked nested node */
+            SKIP();
+        }
         if ((d = take_dest(w[5], r, s, -1)) < 0) {
             SKIP();
         }
